@@ -6,8 +6,9 @@
    spelling s of v, every BUFSIZ and offset, reading s yields v.
    PROVED HERE, about the model: the full statement for the following family of spellings
    (C01_value_bytes_read_back, C01_indirect_object_bytes_read_back, C01_every_value_has_a_spelling):
-   a value's tokens, each in ANY of its admissible spellings - literal strings (raw bytes, named escapes, 1-3 digit
-   octal escapes, line continuations with LF / CR / CRLF, ignored backslashes), hexadecimal strings (either case,
+   a value's tokens, each in ANY of its admissible spellings - literal strings (raw bytes, balanced unescaped
+   parentheses to any depth, named escapes, 1-3 digit octal escapes, line continuations with LF / CR / CRLF, ignored
+   backslashes), hexadecimal strings (either case,
    white space anywhere, even digit count), names (raw regular bytes and #xx), integers (sign, leading zeros), reals
    ([sign] digits . digits), true / false / null / R / obj / endobj, [ ] << >> - separated by ANY amount of white
    space (including NUL) and comments, or by nothing where a delimiter follows (minimal delimiters, including the
@@ -15,8 +16,8 @@
    Layers: (a) object layer for every value tree of any depth over the token sequence (C01_object_layer, ...);
    (b) byte layer per token kind (C01_*_any_spelling, C01_*_in_context); (c) C01_token_sequence: a spelled token
    sequence is tokenized into exactly its tokens from any state between tokens.
-   NOT in the proved family (sampled by the harness only): balanced unescaped parentheses inside literal strings, and
-   the numeric VALUE of a real (the token carries the spelling; float() is Python's).  Excluded because pdfminer
+   NOT in the statement: the numeric VALUE of a real (the token carries the spelling; float() is Python's; the
+   harness compares dyadic values).  Excluded because pdfminer
    deviates (known findings): odd digit count in hexadecimal strings, raw CR / CRLF inside literal strings. *)
 From Coq Require Import ZArith List Bool String.
 From PdfV Require Import Base.CV Gen.LexClasses Model.Lexer Model.StackParser Model.StackRun
@@ -71,8 +72,8 @@ Proof. exact every_string_has_a_spelling. Qed.
 
 Example C01_literal_string_nonvacuous :
   let ps := [PRaw 65; PEsc 110 10; POct [48; 49]; PRaw 57; POct [49; 50; 51]; PRaw 52; PCont [13]; PRaw 66; PCont [13; 10];
-             PIgn 113; PEsc 40 40; POct [55]; PCont [10]] in
-  seq_ok ANone ps /\ flat_map pvalue ps = [65; 10; 1; 57; 83; 52; 66; 113; 40; 7].
+             PIgn 113; PEsc 40 40; POct [55]; PCont [10]; POpen; PRaw 66; POpen; PClose; POct [55]; PClose] in
+  seq_ok ANone ps /\ flat_map pvalue ps = [65; 10; 1; 57; 83; 52; 66; 113; 40; 7; 40; 66; 40; 41; 7; 41].
 Proof. exact spelling_example. Qed.
 
 (* hexadecimal strings: < digits in any case with white space anywhere > *)
